@@ -13,9 +13,9 @@ for _m in sorted(m.name for m in pkgutil.iter_modules(__path__)):
 # The rule is therefore also run under every property whose statement depends on that mechanism, under its own id.
 # (Rules that currently have known findings are not shared: known findings are keyed per property.)
 SHARED = {
-    "C01": [("C08", "R08j"), ("C16", "R16a"), ("C16", "R16b"), ("C06", "R06b"), ("C06", "R06d"), ("C15", "R15a"), ("C05", "R05a"), ("C05", "R05c"), ("C04", "R04d"), ("C16", "R16f"), ("C13", "R13f"), ("C15", "R15e"), ("C08", "R08g"), ("C03", "R03g"), ("C04", "R04b"), ("C19", "R19b")],
+    "C01": [("C08", "R08j"), ("C06", "R06f"), ("C16", "R16a"), ("C16", "R16b"), ("C06", "R06b"), ("C06", "R06d"), ("C15", "R15a"), ("C05", "R05a"), ("C05", "R05c"), ("C04", "R04d"), ("C16", "R16f"), ("C13", "R13f"), ("C15", "R15e"), ("C08", "R08g"), ("C03", "R03g"), ("C04", "R04b"), ("C19", "R19b")],
     "C02": [("C08", "R08j"), ("C06", "R06d"), ("C07", "R07f"), ("C13", "R13f"), ("C13", "R13g"), ("C06", "R06e")],
-    "C03": [("C08", "R08j"), ("C16", "R16c"), ("C16", "R16f"), ("C01", "R01c"), ("C05", "R05a"), ("C05", "R05b"), ("C16", "R16a"), ("C05", "R05c"), ("C15", "R15e"), ("C06", "R06b"), ("C01", "R01h")],
+    "C03": [("C08", "R08j"), ("C15", "R15b"), ("C15", "R15c"), ("C16", "R16c"), ("C16", "R16f"), ("C01", "R01c"), ("C05", "R05a"), ("C05", "R05b"), ("C16", "R16a"), ("C05", "R05c"), ("C15", "R15e"), ("C06", "R06b"), ("C01", "R01h")],
     "C04": [("C02", "R02d"), ("C11", "R11c"), ("C10", "R10a"), ("C14", "R14b")],
     "C07": [("C12", "R12a"), ("C12", "R12g"), ("C12", "R12h")],
     "C08": [("C20", "R20i"), ("C20", "R20g")],
@@ -29,8 +29,8 @@ SHARED = {
     "C13": [("C08", "R08j"), ("C16", "R16c"), ("C16", "R16d"), ("C16", "R16f"), ("C02", "R02g")],
     "C14": [("C07", "R07e"), ("C04", "R04d"), ("C10", "R10a")],
     "C15": [("C08", "R08j"), ("C08", "R08g")],
-    "C16": [("C13", "R13c"), ("C02", "R02a"), ("C06", "R06b")],
-    "C19": [("C08", "R08j"), ("C16", "R16e"), ("C03", "R03b"), ("C03", "R03h")],
+    "C16": [("C06", "R06f"), ("C13", "R13c"), ("C02", "R02a"), ("C06", "R06b")],
+    "C19": [("C08", "R08j"), ("C06", "R06g"), ("C16", "R16e"), ("C03", "R03b"), ("C03", "R03h")],
     "C20": [("C08", "R08j"), ("C14", "R14a"), ("C05", "R05d"), ("C12", "R12d"), ("C09", "R09c"), ("C09", "R09f"), ("C09", "R09b")],
 }
 
